@@ -69,14 +69,15 @@ Qed.
 Lemma first_sibling_some fs hide req ae : forall encs n e,
   first_sibling fs hide req ae encs = Some (n, e) ->
   exists ext, In (e, ext) encs /\ accepts ae e = true /\ fs_open fs (req ++ ext) = Some n /\
-              is_hidden fs hide n = false.
+              n_dir n = false /\ is_hidden fs hide n = false.
 Proof.
   induction encs as [|[name ext] r IH]; intros n e H; simpl in H; [discriminate|].
   destruct (accepts ae name) eqn:A.
   - destruct (fs_open fs (req ++ ext)) as [m|] eqn:E.
-    + destruct (is_hidden fs hide m) eqn:Hh.
+    + destruct (n_dir m || is_hidden fs hide m) eqn:Hh.
       * destruct (IH n e H) as (x & Hin & Ha & Ho). exists x. split; [right; exact Hin|]. auto.
-      * injection H as <- <-. exists ext. split; [left; reflexivity|]. auto.
+      * apply orb_false_iff in Hh as [Hd Hh].
+        injection H as <- <-. exists ext. split; [left; reflexivity|]. auto.
     + destruct (IH n e H) as (x & Hin & Ha & Ho). exists x. split; [right; exact Hin|]. auto.
   - destruct (IH n e H) as (x & Hin & Ha & Ho). exists x. split; [right; exact Hin|]. auto.
 Qed.
@@ -87,7 +88,7 @@ Qed.
 Lemma serve_file_serve fs hide pages prefix m req ae n enc :
   serve_file fs hide pages prefix m req ae = Serve n enc ->
   is_get_head m = true /\ In n fs /\ served_from pages req ae enc (n_path n) /\
-  (enc = None -> n_dir n = false) /\ is_hidden fs hide n = false.
+  n_dir n = false /\ is_hidden fs hide n = false.
 Proof.
   unfold serve_file. destruct (is_get_head m); [|discriminate]. simpl negb. cbv iota.
   destruct (bad_name req); [discriminate|].
@@ -111,9 +112,9 @@ Proof.
   intros H. split; [reflexivity|].
   destruct (first_sibling fs hide req1 ae gen_static_encodings) as [[sn e]|] eqn:Es.
   - injection H as <- <-.
-    destruct (first_sibling_some _ _ _ _ _ _ _ Es) as (ext & Hin & Ha & Ho & Hh).
+    destruct (first_sibling_some _ _ _ _ _ _ _ Es) as (ext & Hin & Ha & Ho & Hd & Hh).
     apply fs_open_some in Ho as (Hfs & Hp & _).
-    split; [exact Hfs|]. split; [|split; [discriminate|exact Hh]].
+    split; [exact Hfs|]. split; [|split; [exact Hd|exact Hh]].
     exists req1. split; [exact Hbase|]. exists ext. auto.
   - injection H as <- <-.
     apply fs_open_some in Ho1 as (Hfs & Hp & _).
@@ -647,8 +648,8 @@ Proof.
   intros H. destruct (serve_file_serve _ _ _ _ _ _ _ _ _ H) as (Hm & Hin & Hs & _). auto.
 Qed.
 
-Lemma static_plain_body fs hide pages prefix m req ae n :
-  serve_file fs hide pages prefix m req ae = Serve n None ->
+Lemma static_body_regular fs hide pages prefix m req ae n enc :
+  serve_file fs hide pages prefix m req ae = Serve n enc ->
   n_dir n = false /\ is_hidden fs hide n = false.
 Proof.
   intros H. destruct (serve_file_serve _ _ _ _ _ _ _ _ _ H) as (_ & _ & _ & Hn & Hh). auto.
@@ -705,7 +706,7 @@ Lemma site_sound (s : site) (r : request) :
   | Serve n enc =>
       is_get_head (q_meth r) = true /\ In n (s_fs s) /\
       served_from (s_pages s) (q_path r) (q_ae r) enc (n_path n) /\
-      (enc = None -> n_dir n = false) /\ is_hidden (s_fs s) (s_hide s) n = false
+      n_dir n = false /\ is_hidden (s_fs s) (s_hide s) n = false
   | Listing kids =>
       forall k, In k kids -> In k (s_fs s) /\ is_child (jail (q_path r)) (n_path k) = true /\
                              is_hidden (s_fs s) (s_hide s) k = false
@@ -729,14 +730,6 @@ Qed.
 
 (* refutation witnesses (the fixture tree the harness serves) *)
 Local Open Scope string_scope.
-Lemma static_serves_regular_file_refuted :
-  exists fs hide pages req ae n enc,
-  serve_file fs hide pages [SLASH] 0 req ae = Serve n enc /\ n_dir n = true.
-Proof.
-  exists fixture_fs, gen_c02_hide, gen_default_index_pages, (bs "/dir/e"), (bs "gzip").
-  eexists. eexists. split; vm_compute; reflexivity.
-Qed.
-
 Lemma archive_never_hidden_refuted :
   exists fs hide pages confs req archive ms k,
   browse fs hide pages confs 0 req [] archive = Archive ms /\ In k ms /\
